@@ -664,7 +664,7 @@ def _identity_param(facts, callee, cache, depth=0):
             if rv['k'] == 'agg' and rv.get('ak') == 'adt' and rv.get('variant') in ('Err', 'None'):
                 continue
             if rv['k'] == 'agg' and rv.get('ak') == 'adt' and rv.get('variant') in ('Ok', 'Some') and len(rv['ops']) == 1:
-                roots.add(_name_root(facts, fn, defs, rv['ops'][0], cache, depth + 1))
+                roots.add(_name_root(facts, fn, defs, rv['ops'][0], cache, depth + 1))  # (looks through one-field wrappers)
             elif rv['k'] == 'use':
                 roots.add(_name_root(facts, fn, defs, rv['a'], cache, depth + 1))
             else:
@@ -701,16 +701,29 @@ def _name_root(facts, fn, defs, o, cache, depth=0):
                     return ('const', l)
             elif rv['k'] == 'ref':
                 q = rv['p']
+            if q is None and rv['k'] == 'agg' and rv.get('ak') == 'adt' and len(rv.get('ops') or []) == 1 and \
+                    (rv.get('adt') or '').startswith('fatfs::'):
+                q = op_place(rv['ops'][0])  # a one-field wrapper built around the value
+                if q is not None and not q['p']:
+                    l = q['l']
+                    continue
+                q = None
             if q is None:
                 return ('local', l)
             proj = [e for e in q['p'] if 'deref' not in e and e != {'deref': True}]
             proj = [e for e in proj if not (isinstance(e, dict) and list(e.keys()) == ['deref'])]
             if proj:
+                if 1 <= q['l'] <= fn.argc and all('f' in e for e in proj) and len(proj) == 1:
+                    return ('param', q['l'])  # the field of a one-field wrapper the caller passed (`name.0` of a `ValidName(&str)`)
                 src = defs.get(q['l'])
+                base_l = q['l']
                 for _hop in range(6):  # the struct value may have been moved a few times (`g = move tmp`)
                     if src is not None and src[0] == 'stmt' and src[1]['k'] == 'use' and op_place(src[1]['a']) is not None and \
                             not op_place(src[1]['a'])['p']:
-                        src = defs.get(op_place(src[1]['a'])['l'])
+                        base_l = op_place(src[1]['a'])['l']
+                        if 1 <= base_l <= fn.argc and all('f' in e for e in proj) and len(proj) == 1:
+                            return ('param', base_l)  # a moved copy of a one-field wrapper parameter
+                        src = defs.get(base_l)
                     elif src is not None and src[0] == 'stmt' and src[1]['k'] == 'ref' and not src[1]['p']['p']:
                         src = defs.get(src[1]['p']['l'])  # the environment of an inlined closure: `&closure`
                     else:
